@@ -110,7 +110,7 @@ def gen_cases(tier, seed, with_chi2=True):
                 add(dict(fam='odo', k='SE3', t1=t[0], r1=q1, t2=t[1], r2=q2, tz=t[2], rz=qz), 6, n)
                 n += 1
     # mixed-denominator vertices, Hurwitz measurement / second vertex (headroom rule of Q)
-    for _ in range(2000 if thorough else 300):
+    for _ in range(8000 if thorough else 300):
         q1 = rnd.choice(B.QMIXED)
         q2 = rnd.choice(hz + B.Q3 + B.Q5A)
         qz = rnd.choice(hz)
@@ -118,7 +118,7 @@ def gen_cases(tier, seed, with_chi2=True):
         add(dict(fam='odo', k='SE3', t1=t[0], r1=q1, t2=t[1], r2=q2, tz=t[2], rz=qz), 6, n)
         n += 1
     # small angles / almost 180 degrees (one 401- or 101-family operand per case), large translations with dyadic rotations
-    for _ in range(600 if thorough else 120):
+    for _ in range(2500 if thorough else 120):
         qs = rnd.choice(B.QSMALL + B.QNEARPI)
         others = [rnd.choice(hz), rnd.choice(hz)]
         pos = 1 + rnd.randrange(2)          # (a 401-family first vertex exceeds TLC's 32-bit headroom)
@@ -126,7 +126,7 @@ def gen_cases(tier, seed, with_chi2=True):
         t = [rnd.choice(T3) for _ in range(3)]
         add(dict(fam='odo', k='SE3', t1=t[0], r1=qq[0], t2=t[1], r2=qq[1], tz=t[2], rz=qq[2]), 6, n)
         n += 1
-    for _ in range(400 if thorough else 80):
+    for _ in range(1500 if thorough else 80):
         t = [rnd.choice(T3L + T3) for _ in range(3)]
         add(dict(fam='odo', k='SE3', t1=t[0], r1=rnd.choice(hz), t2=t[1], r2=rnd.choice(hz), tz=t[2], rz=rnd.choice(hz)), 6, n)
         n += 1
@@ -139,13 +139,13 @@ def gen_cases(tier, seed, with_chi2=True):
                 add(dict(fam='odo', k='SE2', t1=t[0], r1=r1, t2=t[1], r2=rr2, tz=t[2], rz=rz), 3, n)
                 n += 1
     # either side of +-pi and of 0: one 401-family rotation per case
-    for _ in range(600 if thorough else 150):
+    for _ in range(2500 if thorough else 150):
         rr = [rnd.choice(B.PY401), rnd.choice(B.C4 + B.PY5), rnd.choice(B.C4 + B.PY5)]
         rnd.shuffle(rr)
         t = rnd.sample(T2, 3)
         add(dict(fam='odo', k='SE2', t1=t[0], r1=rr[0], t2=t[1], r2=rr[1], tz=t[2], rz=rr[2]), 3, n)
         n += 1
-    for _ in range(300 if thorough else 60):
+    for _ in range(1200 if thorough else 60):
         t = [rnd.choice(T2L + T2) for _ in range(3)]
         add(dict(fam='odo', k='SE2', t1=t[0], r1=rnd.choice(B.C4), t2=t[1], r2=rnd.choice(B.C4 + B.PY5), tz=t[2], rz=rnd.choice(B.C4)), 3, n)
         n += 1
